@@ -126,7 +126,7 @@ func solveAll(fr *FuncResult, opts solveOpts) []*SolveResult {
 			retry = append(retry, i)
 		}
 	}
-	if len(retry) > 0 && len(retry) <= 40 {
+	if len(retry) > 0 && len(retry) <= 40 && os.Getenv("GOCV_NORETRY") == "" {
 		o2 := opts
 		o2.timeoutS = opts.timeoutS * 3
 		sem2 := make(chan struct{}, 3)
